@@ -10,6 +10,11 @@ Line grammar (all coordinates are CHROMOSOME coordinates; `.` = empty string / N
   incF   <P> <ref> <VS> <L>                 FeatureInterval.incorporate_variants
   incT   <P> <ref> <VS> <L> <kc> (<s> <e>)*kc <f0>    TranscriptInterval (kc = 0: non-coding), first CDS frame f0
   incC   <P> <ref> <VS> <L> <f0>            CDSInterval.incorporate_variants
+  hap    <P> <ref> <nh> (<n> <V>*n)*nh <nm> (<G|F> <nleaf> <L>*nleaf)*nm
+         AnnotationCollection(feature_collections=F members, genes=G members, variant_collections=the nh haplotypes)
+         .alternative_haplotype_mapping; answer per haplotype, in input order:
+         ok (hap <i> <count> (member <j> <nleaf> (<strand> <k> chromosome blocks <spliced seq>)*nleaf)*count)*nh
+         (member index j = position in the op line; genes are non-coding transcripts, F members FeatureIntervals)
   vcf    <n> (<chrom> <start> <end> <nsamples> <ps:. | none | int> <nalt> (<alt> <type>)*nalt)*n
 Answers
   altseq: ok <sequence|.>
@@ -95,6 +100,59 @@ class _Obj:
         self.__dict__.update(kw)
 
 
+def hap_op(tk):
+    from inscripta.biocantor.gene import AnnotationCollection, FeatureIntervalCollection, GeneInterval
+
+    ptok, ref = tk.next(), tk.next()
+    parent, _cs = parse_parent(ptok, ref)
+    nh = tk.int()
+    haps = []
+    for i in range(nh):
+        n = tk.int()
+        vs = []
+        for _ in range(n):
+            s, e, alt = tk.int(), tk.int(), tk.next()
+            alt = "" if alt == "." else alt
+            vs.append(VariantInterval(s, e, alt, "variant", parent_or_seq_chunk_parent=parent))
+        haps.append(VariantIntervalCollection(vs, variant_collection_id=f"h{i}", parent_or_seq_chunk_parent=parent))
+    nm = tk.int()
+    genes, feats, index = [], [], {}
+    for j in range(nm):
+        kind, nleaf = tk.next(), tk.int()
+        leaves = []
+        for l in range(nleaf):
+            st = tk.strand()
+            es, ee = parse_blocks(tk)
+            if kind == "G":
+                leaves.append(TranscriptInterval(es, ee, st, transcript_id=f"t{j}_{l}", parent_or_seq_chunk_parent=parent))
+            else:
+                leaves.append(FeatureInterval(es, ee, st, feature_id=f"t{j}_{l}", parent_or_seq_chunk_parent=parent))
+        if kind == "G":
+            genes.append(GeneInterval(leaves, gene_id=f"m{j}", parent_or_seq_chunk_parent=parent))
+        else:
+            feats.append(FeatureIntervalCollection(leaves, feature_collection_id=f"m{j}", parent_or_seq_chunk_parent=parent))
+        index[f"m{j}"] = j
+    ac = AnnotationCollection(feats, genes, haps, parent_or_seq_chunk_parent=parent)
+    mapping = ac.alternative_haplotype_mapping or {}
+    out = []
+    for i, h in enumerate(haps):
+        members = mapping.get(h.guid, [])
+        out.append(f"hap {i} {len(members)}")
+        for m in members:
+            leaves = list(m)
+            out.append(f"member {index[m.id]} {len(leaves)}")
+            for leaf in leaves:
+                bl = list(zip(leaf._genomic_starts, leaf._genomic_ends))
+                try:
+                    seq = seqtok(leaf.get_spliced_sequence())
+                except Exception as ex:  # noqa
+                    seq = "!" + type(ex).__name__
+                out.append(f"{RSYM[leaf.strand]} {len(bl)} " + " ".join(f"{s} {e}" for s, e in bl) + " " + seq)
+    # keys of the mapping that belong to no haplotype of the input would be a bug of their own
+    extra = len(set(mapping) - {h.guid for h in haps})
+    return "ok " + " ".join(out) + (f" extra {extra}" if extra else "")
+
+
 def impl_var_op(line):
     tk = Toks(line.split())
     op = tk.next()
@@ -102,6 +160,8 @@ def impl_var_op(line):
     def go():
         if op == "vcf":
             return vcf_op(tk)
+        if op == "hap":
+            return hap_op(tk)
         ptok, ref = tk.next(), tk.next()
         parent, _cs = parse_parent(ptok, ref)
         variants = parse_variants(tk, parent)
